@@ -37,9 +37,9 @@ for f in sorted(glob.glob(os.path.join(ROOT, 'seeded/*/meta.json'))):
 head = ["%d seeded changes kept (each confirmed by me: its demonstration fails with the change and passes without, the repository's "
         "own 415 tests pass with it). First run of the property's quick check: %d reported with a failing input, %d reported by the "
         "broken tie only (`no-failing-input-found`), %d missed. Every missed one (and some of the tie-only ones) led to a strengthening "
-        "of the check (last column, §12). All of them were run again against the checks as they stood after round 5, and after round 6 every seed of the "
-        "properties whose checks or drivers changed in that round (C04, C06, C07, C12, C13, C14, and C01-f) once more (`bin/seed-recheck`, `seeded/*/recheck.json`; the "
-        "round-6 seeds of the other properties stand with their first run): %d reported with a failing input, %d by the broken tie only (the reason "
+        "of the check (last column, §12). All of them were run again against the checks as they stood after round 5, and after rounds 6 and 7 every seed of the "
+        "properties whose checks or drivers changed in those rounds (C02, C04, C06, C07, C12, C13, C14, and C01-f) once more (`bin/seed-recheck`, `seeded/*/recheck.json`; the "
+        "round-6 and round-7 seeds of the other properties stand with their first run): %d reported with a failing input, %d by the broken tie only (the reason "
         "is in the seed's meta.json `note`), %d missed." % (n['total'], n['first_input'], n['first_tie'], n['missed'], final['input'], final['tie'], final['missed']),
         "",
         "| seed | what was changed (from the sub-agent's meta.json) | needs | first run of the check | after strengthening |",
